@@ -98,20 +98,24 @@ def replay_header(ctx, rec, expect=None):
     return bad
 
 
-def replay_block(ctx, rec):
+HOWS = ("parse", "from_bin", "deferred", "msg")      # msg: BlockWire.BlockMsgParts, the image inside a "block" message
+
+
+def replay_block(ctx, rec, run=drv.run_block, nets=NETS, hows=HOWS, where=""):
+    """run / nets / where: who executes the case (default: this process) and the configuration tag of the keys"""
     ev = Ev(ctx.seed)
     image = ev.image(rec["image"])
     accept = rec["accept"]
     txids = [ev(t) for t in rec["txids"]]
-    ctx.case(("block", rec["n"], rec["sw"], rec["rk"]))
+    ctx.case(("block", rec["n"], rec["sw"], rec["rk"], where))
     bad = 0
-    for net in NETS:
-        for how in ("parse", "from_bin", "deferred"):
-            got = drv.run_block(net, image, how)
+    for net in nets:
+        for how in hows:
+            got = run(net, image, how)
             ctx.case()
-            cls = "%s|%s|rk=%s|sw=%s" % (net, how, rec["rk"], rec["sw"])
+            cls = "%s|%s|rk=%s|sw=%s%s" % (net, how, rec["rk"], rec["sw"], where)
             detail = {"image": image.hex() if len(image) < 4000 else image[:200].hex() + "...", "n": rec["n"], "rk": rec["rk"],
-                      "sw": rec["sw"], "got": got, "accept": accept}
+                      "sw": rec["sw"], "got": got, "accept": accept, "how": how, "configuration": where}
             if not accept:
                 if got["ok"]:
                     bad += 1
@@ -145,20 +149,20 @@ def _mb_class(rec):
     return "cor=%s/%s|fail=%s" % (rec["cor"]["kind"], rec["cor"]["v"], "+".join(sorted(rec["fail"])) or "-")
 
 
-def replay_mb(ctx, rec, stats=None):
+def replay_mb(ctx, rec, stats=None, run=drv.run_merkleblock, nets=NETS, where=""):
     ev = Ev(ctx.seed)
     image = ev.image(rec["image"])
     demand = rec["demand"]
     matched = [ev(t) for t in rec["matched"]]
     pad = rec["bits"] % 8
-    ctx.case(("mb", rec["n"], rec["cor"]["kind"], rec["cor"]["v"], tuple(sorted(rec["fail"])), pad == 0, len(rec["m"]) in (0, rec["n"])))
+    ctx.case(("mb", rec["n"], rec["cor"]["kind"], rec["cor"]["v"], tuple(sorted(rec["fail"])), pad == 0, len(rec["m"]) in (0, rec["n"]), where))
     bad = 0
-    for net in NETS:
-        got = drv.run_merkleblock(net, image)
+    for net in nets:
+        got = run(net, image)
         ctx.case()
-        detail = {"image": image.hex(), "n": rec["n"], "matched_set": rec["m"], "corruption": rec["cor"],
+        detail = {"image": image.hex(), "n": rec["n"], "matched_set": rec["m"], "corruption": rec["cor"], "configuration": where,
                   "spec": {"demand": demand, "bip37": rec["core"], "fail": rec["fail"], "matched": [x.hex() for x in matched]}, "got": got}
-        cls = "%s|%s" % (net, _mb_class(rec))
+        cls = "%s|%s%s" % (net, _mb_class(rec), where)
         if demand == "accept":
             if not got["ok"]:
                 bad += 1
@@ -172,10 +176,10 @@ def replay_mb(ctx, rec, stats=None):
                              rec["n"], rec["m"], [x.hex()[:8] for x in got["tx"]], [x.hex()[:8] for x in matched]), detail)
             if got["total"] != rec["n"] or got["nhashes"] != rec["nhashes"] or got["flags"] != rec["flags"]:
                 bad += 1
-                ctx.fail("C14|merkleblock|%s|fields" % net, "merkleblock fields parsed differently", detail)
+                ctx.fail("C14|merkleblock|%s|fields%s" % (net, where), "merkleblock fields parsed differently", detail)
             if got["repacked"] != image:
                 bad += 1
-                ctx.fail("C14|merkleblock|%s|pack" % net, "pack(parse(message)) differs from the message", detail)
+                ctx.fail("C14|merkleblock|%s|pack%s" % (net, where), "pack(parse(message)) differs from the message", detail)
         elif demand == "reject":
             if got["ok"]:
                 bad += 1
@@ -189,6 +193,71 @@ def replay_mb(ctx, rec, stats=None):
                 stats[k] = stats.get(k, 0) + 1
     ctx.replayed += 1
     return bad
+
+
+# ================================================================ 2d. the message cases in other process configurations
+
+def _unjs(o):
+    if isinstance(o, dict):
+        if set(o) == {"hex"}:
+            return bytes.fromhex(o["hex"])
+        return {k: _unjs(v) for k, v in o.items()}
+    if isinstance(o, list):
+        return [_unjs(v) for v in o]
+    return o
+
+
+def _spawn(order, driven, mb_img, bl_img):
+    import subprocess
+    import sys
+    fd, path = tempfile.mkstemp(prefix="vf-c14-cfg-", suffix=".json")
+    with os.fdopen(fd, "w") as f:
+        json.dump({"order": list(order), "driven": sorted(driven), "mb": [x.hex() for x in mb_img], "blocks": [x.hex() for x in bl_img]}, f)
+    return path, subprocess.Popen([sys.executable, "-m", "vf.drv.block", path], stdout=subprocess.PIPE, stderr=subprocess.PIPE, text=True)
+
+
+def _collect(order, job):
+    import subprocess
+    path, p = job
+    try:
+        out, err = p.communicate(timeout=1500)
+    except subprocess.TimeoutExpired:
+        p.kill()
+        raise MachineryError("configuration worker (networks %s) did not finish" % (order,))
+    finally:
+        os.unlink(path)
+    if p.returncode != 0:
+        raise MachineryError("configuration worker failed (networks %s): %s" % (order, err[-1500:]))
+    return _unjs(json.loads(out))
+
+
+def replay_configs(ctx, config, mbs, blocks):
+    """BlockWire.LoadOrders: for every order a fresh process loads all its networks first, then executes the kept
+    merkleblock / block message cases on each driven network (drv.block worker mode); judged here, by the same
+    comparisons as in-process, against the same records of TLC"""
+    ev = Ev(ctx.seed)
+    mb_img = [ev.image(r["image"]) for r in mbs]
+    bl_img = [ev.image(r["image"]) for r in blocks]
+    jobs = [(order, _spawn(order, config["driven"], mb_img, bl_img)) for order in config["orders"]]
+    nbad = 0
+    for order, job in jobs:
+        res = _collect(order, job)
+        where = "|loaded=" + "+".join(order)
+        nets = [n for n in order if n in config["driven"]]
+        if sorted(res["mb"]) != sorted(nets) or any(len(res["mb"][n]) != len(mbs) or len(res["blocks"][n]) != len(blocks) for n in nets):
+            raise MachineryError("configuration worker (networks %s) answered for %s" % (order, sorted(res["mb"])))
+        tab_mb = {(n, img): got for n in nets for img, got in zip(mb_img, res["mb"][n])}
+        tab_bl = {(n, img): got for n in nets for img, got in zip(bl_img, res["blocks"][n])}
+        bad = 0
+        for r in mbs:
+            bad += replay_mb(ctx, r, None, run=lambda n, img: tab_mb[(n, img)], nets=nets, where=where)
+        for r in blocks:
+            bad += replay_block(ctx, r, run=lambda n, img, how: tab_bl[(n, img)], nets=nets, hows=("msg",), where=where)
+        ctx.action("replay.config." + "+".join(order), (len(mbs) + len(blocks)) * len(nets))
+        ctx.log("networks loaded in the order %s: %d merkleblock + %d block message cases on %s: %d disagreements" % (
+            ",".join(order), len(mbs), len(blocks), "/".join(nets), bad))
+        nbad += bad
+    return nbad
 
 
 # ================================================================ 0. ground truth
@@ -544,7 +613,8 @@ def _trace_key(t, tv):
 def run(ctx):
     q = ctx.quick
     ctx.rule = ("model: every block size <= N x every subset of matched transactions x every listed corruption (TLC, exhaustive), "
-                "header/block grids of MC_BlockWire; replay: each printed case executed on pycoin for BTC and LTC; "
+                "header/block grids of MC_BlockWire; replay: each printed case executed on pycoin for BTC and LTC, the message cases "
+                "also in fresh processes per BlockWire.LoadOrders; "
                 "distinct_nontrivial = distinct (n, corruption kind/variant, failure set, byte-aligned?, trivial match set?) "
                 "merkleblock classes + (n, witness pattern, root kind) block classes + (n, mode) merkle classes")
     ctx.assumptions += ["SHA-256d is collision free on the values involved (term equality = hash equality)",
@@ -552,6 +622,7 @@ def run(ctx):
                         "the transaction wire format itself is C07's subject (spec/TxWire.tla is imported)",
                         "TLC/SANY, CPython, hashlib"]
     W = 16
+    multi = {"config": None, "blocks": [], "mb": [], "per": {}}      # cases kept for the other process configurations
 
     # 0. ground truth
     if _only(ctx, "truth"):
@@ -577,7 +648,9 @@ def run(ctx):
         nb = [0, 0, 0]
 
         def on(rec):
-            if rec.get("k") == "header":
+            if rec.get("k") == "config":
+                multi["config"] = rec
+            elif rec.get("k") == "header":
                 nb[0] += 1
                 nb[2] += replay_header(ctx, rec)
                 ctx.case(("hdr", nb[0]))
@@ -586,6 +659,8 @@ def run(ctx):
             elif rec.get("k") == "block":
                 nb[1] += 1
                 nb[2] += replay_block(ctx, rec)
+                if rec["n"] <= 3 or rec["rk"] == "dupquirk" or (rec["n"] <= 9 and rec["rk"] in ("good", "flip255")):
+                    multi["blocks"].append(rec)
                 if rec["n"] == 3 and rec["rk"] == "nodup":
                     ctx.sample({"block_case": {k: rec[k] for k in ("n", "sw", "rk", "accept", "honest_root")}})
                 if rec["n"] == 2 and rec["rk"] == "good" and rec["sw"] == "second" and "keep" not in on.__dict__:
@@ -613,6 +688,11 @@ def run(ctx):
                 return
             cnt[rec["demand"]] += 1
             cnt["bad"] += replay_mb(ctx, rec, stats)
+            # kept for the other configurations: every honest proof, and of every corruption class the first few
+            ck = (rec["cor"]["kind"], rec["cor"]["v"], rec["demand"])
+            multi["per"][ck] = multi["per"].get(ck, 0) + 1
+            if rec["cor"]["kind"] == "none" or (rec["demand"] != "free" and multi["per"][ck] <= 4):
+                multi["mb"].append(rec)
             ctx.action("replay.merkleblock." + rec["cor"]["kind"], 1)
             if rec["n"] == 5 and rec["m"] == [3, 5]:
                 if rec["cor"]["kind"] in ("none", "padbit", "add") and rec["cor"]["kind"] not in keep:
@@ -644,6 +724,15 @@ def run(ctx):
         b2 = copy.deepcopy(keep["padbit"])
         b2["demand"] = "accept"
         _binding(ctx, "replay_rejects_corrupted_merkleblock_expectation_2", replay_mb, keep["padbit"], [b2])
+
+    # 2d. the message cases again, in processes that loaded several networks (BlockWire.LoadOrders)
+    if _only(ctx, "block") and _only(ctx, "mb"):
+        if not multi["config"] or not multi["mb"] or not multi["blocks"]:
+            raise MachineryError("no configuration record / no message cases kept for the configurations")
+        # deterministic whatever the order TLC's workers printed in
+        key = lambda r: json.dumps({k: r[k] for k in ("n", "m", "cor")} if "cor" in r else {k: r[k] for k in ("n", "sw", "rk")}, sort_keys=True)
+        replay_configs(ctx, multi["config"], sorted(multi["mb"], key=key), sorted(multi["blocks"], key=key))
+        ctx.extra["process_configurations"] = multi["config"]["orders"]
 
     # 3. code -> spec
     if _only(ctx, "trace"):
@@ -756,7 +845,25 @@ def replay(ctx, obj):
     img = d.get("image")
     if isinstance(img, dict):
         img = img.get("hex")
-    if img and "corruption" in d:
+    where = d.get("configuration") or ""
+    if img and where.startswith("|loaded=") and not img.endswith("..."):
+        # a case of another process configuration: the same networks loaded in the same order, in a fresh process
+        order = where[len("|loaded="):].split("+")
+        ismb = "corruption" in d
+        asked = [n for n in order if ("|%s|" % n) in obj["key"]] or order
+        res = _collect(order, _spawn(order, asked, [bytes.fromhex(img)] if ismb else [], [] if ismb else [bytes.fromhex(img)]))
+        for net in order:
+            for got in res["mb" if ismb else "blocks"].get(net, []):
+                print(net, "after loading", order, ":", {k: v for k, v in got.items() if k in ("ok", "exc", "msg", "id", "ntx", "tx")})
+                if ismb:
+                    spec = d["spec"]
+                    wrong = (spec["demand"] == "reject" and got["ok"]) or (spec["demand"] == "accept" and (
+                        not got["ok"] or [x.hex() for x in got["tx"]] != spec["matched"] or got["repacked"] != bytes.fromhex(img)))
+                else:
+                    wrong = got["ok"] != d["accept"] or (got["ok"] and (got["as_bin"] != bytes.fromhex(img) or got["consumed"] != len(img) // 2))
+                if wrong and ("|%s|" % net) in obj["key"]:
+                    ctx.fail(obj["key"], obj["what"], d)
+    elif img and "corruption" in d:
         spec = d["spec"]
         print("spec:", spec, "corruption:", d["corruption"], "n:", d["n"], "matched set:", d["matched_set"])
         for net in NETS:
